@@ -47,7 +47,7 @@ Print Assumptions C18_in_every_run.
 
 (* ---- the trigger test is the source's: Callback.check translated statement by statement on this
    run (gen/decide.go -> GeneratedSkel.callback_check_code, interpreted by DecideLang.exec) ---- *)
-From Scrapli Require Import DecideLang GeneratedSkel Decide.
+From Scrapli Require Import DecideLang GeneratedSkel DecideCB.
 
 Theorem C18_check_is_source : forall c b,
   cb_runt (cb_tests_of c b) = Some (cb_check c b, cb_insensitive c).
@@ -65,7 +65,7 @@ Print Assumptions C18_check_is_source.
    dialogue (complete) or the scan goes on with the accumulated output dropped exactly when
    reset-output is set and the callback's own next-timeout in force exactly when it has one;
    [C18_cb_loop_fire] is the model's step with the same tests. *)
-From Scrapli Require Import DecideLoops CallbackSrc.
+From Scrapli Require Import DecideLemmas CallbackSrc.
 Theorem C18_callback_scan_is_source : forall checks, scan_run checks = Some (first_true checks 0).
 Proof. exact callback_scan_is_source. Qed.
 
@@ -93,3 +93,13 @@ Print Assumptions C18_callback_scan_is_source.
 Print Assumptions C18_first_firing_first_true.
 Print Assumptions C18_execute_callback_is_source.
 Print Assumptions C18_cb_loop_fire.
+
+(* every test that the translated functions of this property make is one the environments of their
+   ties were written for: a test that is new in the source breaks this (an unknown equality would
+   otherwise evaluate to false without notice) *)
+From Scrapli Require Import DecideLang GeneratedSkel CallbackSrc DecideCB.
+Theorem C18_source_tests_known :
+  tests_known callback_check_code callback_check_known = true /\
+  tests_known execute_callback_code execute_callback_known = true.
+Proof. split; [exact callback_check_tests_known | exact execute_callback_tests_known]. Qed.
+Print Assumptions C18_source_tests_known.
